@@ -161,37 +161,44 @@ class AsyncSocket(base_socket.BaseSocket):
         if self.connected:
             # the socket was already connected, so this is an upgrade
             self.upgrading = True  # hold packet sends during the upgrade
-
             try:
-                pkt = await websocket_wait()
-            except OSError:  # pragma: no cover
-                return
-            decoded_pkt = packet.Packet(encoded_packet=pkt)
-            if decoded_pkt.packet_type != packet.PING or \
-                    decoded_pkt.data != 'probe':
-                self.server.logger.info(
-                    '%s: Failed websocket upgrade, no PING packet', self.sid)
-                self.upgrading = False
-                return
-            await ws.send(packet.Packet(packet.PONG, data='probe').encode())
-            await self.queue.put(packet.Packet(packet.NOOP))  # end poll
+                try:
+                    pkt = await websocket_wait()
+                except OSError:  # pragma: no cover
+                    self.upgrading = False
+                    return
+                decoded_pkt = packet.Packet(encoded_packet=pkt)
+                if decoded_pkt.packet_type != packet.PING or \
+                        decoded_pkt.data != 'probe':
+                    self.server.logger.info(
+                        '%s: Failed websocket upgrade, no PING packet',
+                        self.sid)
+                    self.upgrading = False
+                    return
+                await ws.send(
+                    packet.Packet(packet.PONG, data='probe').encode())
+                await self.queue.put(packet.Packet(packet.NOOP))  # end poll
 
-            try:
-                pkt = await websocket_wait()
-            except OSError:  # pragma: no cover
+                try:
+                    pkt = await websocket_wait()
+                except OSError:  # pragma: no cover
+                    self.upgrading = False
+                    return
+                decoded_pkt = packet.Packet(encoded_packet=pkt)
+                if decoded_pkt.packet_type != packet.UPGRADE:
+                    self.upgraded = False
+                    self.server.logger.info(
+                        ('%s: Failed websocket upgrade, expected UPGRADE '
+                         'packet, received %s instead.'),
+                        self.sid, pkt)
+                    self.upgrading = False
+                    return
+                self.upgraded = True
                 self.upgrading = False
-                return
-            decoded_pkt = packet.Packet(encoded_packet=pkt)
-            if decoded_pkt.packet_type != packet.UPGRADE:
-                self.upgraded = False
-                self.server.logger.info(
-                    ('%s: Failed websocket upgrade, expected UPGRADE packet, '
-                     'received %s instead.'),
-                    self.sid, pkt)
+            except BaseException:
+                # the handshake did not complete, stay on polling
                 self.upgrading = False
-                return
-            self.upgraded = True
-            self.upgrading = False
+                raise
         else:
             self.connected = True
             self.upgraded = True
